@@ -24,14 +24,18 @@ def run_crosshair(path, per_condition_timeout=30, extra_args=()):
         return f"line{line_no}"
 
     res = []
+    entries = []
     for line in out.splitlines():
         m = re.match(r".*?:(\d+): (error|info): (.*)", line)
         if not m:
+            if entries:
+                entries[-1][2] += " " + line.strip()  # continuation of a multi-line message
             continue
-        ln, kind, msg = int(m.group(1)), m.group(2), m.group(3)
+        entries.append([int(m.group(1)), m.group(2), m.group(3)])
+    for ln, kind, msg in entries:
         fn = fn_of(ln)
         if kind == "error":
-            mm = re.search(r"when calling (.*?\))(?: \(which|$)", msg)
+            mm = re.search(r"^false when calling (.*?\))(?: \(which|$)", msg)
             if mm:
                 res.append((fn, "counterexample", mm.group(1)))
             else:
@@ -47,3 +51,36 @@ def run_crosshair(path, per_condition_timeout=30, extra_args=()):
     if not res:
         res.append(("crosshair", "error", out[-400:]))
     return res
+
+
+def record(rec, task, res, path, key_of=lambda fn, call: None, skip=()):
+    """turn CrossHair verdicts into obligations of a Recorder; counterexamples (postcondition false or exception escaping the
+    harness function) are replayed by calling the same harness function with the reported arguments"""
+    mod = os.path.splitext(os.path.basename(path))[0]
+    d = os.path.dirname(path)
+    for fn, verdict, detail in res:
+        if fn.startswith("_") or fn in skip:
+            continue
+        rec.obligations += 1
+        call = None
+        if verdict == "counterexample":
+            call = detail
+        elif verdict == "error":
+            mm = re.search(r"when calling (.*\))", detail)
+            call = mm.group(1) if mm else None
+            if call and " (which" in call:
+                call = call.split(" (which")[0]
+        if verdict == "confirmed":
+            rec.discharged += 1
+        elif call:
+            script = (
+                f"sys.path.insert(0, {d!r})\nimport {mod} as H\ntry:\n    r = H.{call}\nexcept AssertionError as e:\n    print('postcondition violated', e); sys.exit(1)\n"
+                "except Exception as e:\n    print('raised', type(e).__name__, e); sys.exit(1)\nprint(r); sys.exit(0 if r else 1)\n"
+            )
+            rec.violation_from_script(fn, key_of(fn, call) or f"{rec.prop}:{fn}", script, what=f"CrossHair counterexample: {call} [{detail[:120]}]")
+        elif verdict == "not_confirmed":
+            rec.obligations -= 1
+            rec.best_effort_inconclusive.append(f"{task}:{fn}: bounded search without counterexample (paths not exhausted in the budget)")
+        else:
+            rec.inconclusive.append(f"{task}:{fn}: {verdict} {detail[:160]}")
+    rec.sample({"crosshair": [(f, v, d_[:80]) for f, v, d_ in res]})
